@@ -61,7 +61,7 @@ func runAttackMonitor(c *Ctx, id string) int {
 				}
 				for _, first := range []string{"T", "P", "S", "E"} {
 					specs = append(specs, childSpec{
-						Args:    []string{"scripted", fmt.Sprint(w), fmt.Sprint(m), first, fmt.Sprint(depth), order},
+						Args:    []string{"scripted", fmt.Sprint(w), fmt.Sprint(m), first, fmt.Sprint(depth), order, []string{"nowait", "wait"}[(int(w)+int(m))%2]},
 						Env:     []string{"GOMAXPROCS=1"},
 						Label:   fmt.Sprintf("scripted w=%d m=%d %s first=%s", w, m, order, first),
 						Timeout: 40 * time.Minute,
@@ -130,13 +130,35 @@ func attackChild(c *Ctx, id string) int {
 	switch args[0] {
 	case "scripted":
 		cfg := scriptCfg{Workers: uint64(atoi(1)), Max: uint64(atoi(2)), MaxFirst: len(args) > 5 && args[5] == "mw"}
+		if len(args) > 6 && args[6] == "wait" {
+			cfg.Wait = time.Nanosecond
+		}
 		exploreScripts(run, cfg, atoi(4), args[3], id)
 	case "long":
 		rng := rand.New(rand.NewSource(c.Seed*1000 + int64(atoi(1))))
 		for i := 0; i < atoi(2); i++ {
-			cfg := scriptCfg{Workers: uint64(rng.Intn(10)), Max: uint64(1 + rng.Intn(8)), MaxFirst: rng.Intn(2) == 0}
+			cfg := scriptCfg{Workers: uint64(rng.Intn(10)), Max: uint64(1 + rng.Intn(8)), MaxFirst: rng.Intn(2) == 0, Wait: []time.Duration{0, 1, 20 * time.Microsecond}[rng.Intn(3)]}
 			script := randomScript(rng, atoi(3))
-			logCase(fmt.Sprintf(`{"cfg":{"workers":%d,"max_workers":%d},"script":%q}`, cfg.Workers, cfg.Max, strings.Join(script, " ")))
+			if i%3 == 2 {
+				cfg.Timeout = 20 * time.Millisecond
+			}
+			if i == 2 {
+				// the pool grows to its maximum on demand, everything finishes, a long idle stretch,
+				// then the full capacity is wanted again
+				cfg.Workers, cfg.Max = uint64(rng.Intn(2)), uint64(2+rng.Intn(3))
+				script = nil
+				for _, e := range []string{"T", "Cok", "R"} {
+					for k := uint64(0); k < cfg.Max; k++ {
+						script = append(script, e)
+					}
+				}
+				script = append(script, "I")
+				for k := uint64(0); k < cfg.Max; k++ {
+					script = append(script, "T")
+				}
+			}
+			cb, _ := json.Marshal(cfg)
+			logCase(fmt.Sprintf(`{"cfg":%s,"script":%q}`, cb, strings.Join(script, " ")))
 			x := runScript(run, cfg, script, []string{"ticks", "stop"}[i%2], id)
 			if !x.failed {
 				run.Distinct("long:" + fmt.Sprint(cfg) + strings.Join(x.script, ","))
@@ -145,9 +167,10 @@ func attackChild(c *Ctx, id string) int {
 	case "burst":
 		rng := rand.New(rand.NewSource(c.Seed*4099 + int64(atoi(1))))
 		for i := 0; i < atoi(2); i++ {
-			cfg := scriptCfg{Workers: uint64(rng.Intn(4)), Max: uint64(1 + rng.Intn(5)), MaxFirst: rng.Intn(4) == 0}
+			cfg := scriptCfg{Workers: uint64(rng.Intn(4)), Max: uint64(1 + rng.Intn(5)), MaxFirst: rng.Intn(4) == 0, Wait: []time.Duration{0, 0, 1, 5 * time.Microsecond}[rng.Intn(4)]}
 			burst := 2 + rng.Intn(int(cfg.Max)+1)
-			logCase(fmt.Sprintf(`{"cfg":{"workers":%d,"max_workers":%d},"burst":%d}`, cfg.Workers, cfg.Max, burst))
+			cb, _ := json.Marshal(cfg)
+			logCase(fmt.Sprintf(`{"cfg":%s,"burst":%d}`, cb, burst))
 			runBurst(run, cfg, burst, id)
 		}
 	case "stress":
@@ -186,6 +209,8 @@ func randomScript(rng *rand.Rand, n int) []string {
 			s = append(s, "P")
 		case x == 2:
 			s = append(s, "E")
+		case x < 12:
+			s = append(s, "I") // only enabled with a client timeout and nothing in flight
 		default:
 			s = append(s, alphabet[rng.Intn(len(alphabet))])
 		}
